@@ -1,0 +1,9 @@
+//go:build verif
+
+package snapshot
+
+// Contracts checked by /verif (lsvc). This file contains comments only and is
+// compiled only with the build tag "verif".
+
+//@ func (kv *KV) MaskedFlags
+//@   inline
